@@ -23,6 +23,8 @@ ASSUMPTIONS = ['perturbations are generated on the abstract peptide and rendered
 def modlists(level):
     base = [[['Oxidation', 1]], [['15.995', 2]], [['Oxidation', 1], ['15.995', 1]], [['Phospho', 1], ['Phospho', 1], ['1', 3]],
             [['Formula:[13C2][12C-2]H2N', 1], ['Oxidation', 2]]]
+    if level <= 2:
+        base = base + [[['Glycan:Hex', 12], ['1.5', 10]]]       # multipliers with two digits
     return base if level <= 2 else base[:3]
 
 
